@@ -59,6 +59,67 @@ def schema_object_literals(fn):
     return out
 
 
+def merge_required_rule(mod, rep, rid):
+    """A function that folds several object schemas into one (the allOf merge) must carry over the whole `required`
+    list of every member: the validator of an intersection demands every member's required keys.  Located by role: a
+    top-level function that loops over an array parameter and returns an object literal with a `required` entry built
+    from an accumulator.  Accepted idioms for 'all of member.required goes into the accumulator', as a statement
+    directly in the member loop's body: `for (const k of m.required ?? []) acc.add(k)` (no condition inside),
+    `(m.required ?? []).forEach(k => acc.add(k))`, `acc = new Set([...acc, ...m.required])`, `acc.push(...m.required)`."""
+    n = 0
+    for fname, d in sorted(mod.functions.items()):
+        body = d.get("body")
+        if body is None:
+            continue
+        ps = ts_common.fn_params(d)
+        # accumulator: identifier rendered inside the value of a `required:` property of a returned object
+        accs = set()
+        for r in walk(body):
+            if r["type"] != "ReturnStatement" or r.get("argument") is None:
+                continue
+            for o in walk(r["argument"]):
+                if o["type"] == "KeyValueProperty" and tsast.prop_key(o["key"]) == "required":
+                    for i in walk(o["value"]):
+                        if i["type"] == "Identifier":
+                            accs.add(i["value"])
+        if not accs:
+            continue
+        loops = [l for l in body["stmts"] if l["type"] == "ForOfStatement" and s(l["right"]) in ps]
+        if not loops:
+            continue
+        for loop in loops:
+            mvar = loop["left"]["declarations"][0]["id"].get("value") if loop["left"]["type"] == "VariableDeclaration" else None
+            if mvar is None or loop["body"]["type"] != "BlockStatement":
+                continue
+            n += 1
+            full = False
+            for st in loop["body"]["stmts"]:
+                if st["type"] == "ForOfStatement" and (mvar + ".required") in s(st["right"]):
+                    kv = st["left"]["declarations"][0]["id"].get("value") if st["left"]["type"] == "VariableDeclaration" else None
+                    stmts = st["body"]["stmts"] if st["body"]["type"] == "BlockStatement" else [st["body"]]
+                    if len(stmts) == 1 and stmts[0]["type"] == "ExpressionStatement":
+                        mc = method_call(stmts[0]["expression"])
+                        if mc and mc[1] in ("add", "push") and s(mc[0]) in accs and [s(a) for a in mc[2]] == [kv]:
+                            full = True
+                elif st["type"] == "ExpressionStatement":
+                    e = unparen(st["expression"])
+                    mc = method_call(e)
+                    if mc and mc[1] == "forEach" and (mvar + ".required") in s(mc[0]) and mc[2] and mc[2][0]["type"] in ("ArrowFunctionExpression", "FunctionExpression"):
+                        cb = mc[2][0]
+                        inner = [method_call(x) for x in walk(cb) if x["type"] == "CallExpression"]
+                        conds = [x for x in walk(cb) if x["type"] in ("IfStatement", "ConditionalExpression")]
+                        if not conds and any(i and i[1] in ("add", "push") and s(i[0]) in accs for i in inner):
+                            full = True
+                    elif mc and mc[1] == "push" and s(mc[0]) in accs and any((mvar + ".required") in s(a) for a in mc[2]):
+                        full = True
+                    elif e["type"] == "AssignmentExpression" and s(e["left"]) in accs and (mvar + ".required") in s(e["right"]) and s(e["left"]) in s(e["right"]):
+                        full = True
+            rep.ob(rid, "%s/required-of-every-member" % fname, full,
+                   "%s merges object schemas but does not add the whole `required` list of each member to the merged `required`: a key that a later member requires can be missing, so documents the intersection's validator rejects are valid against the schema" % fname,
+                   mod.loc(loop), sample={"fn": fname, "member_loop_var": mvar, "accumulators": sorted(accs)})
+    rep.floor(rid, "schema-merging loops", n, 1)
+
+
 def run(cx, rep):
     fam = ts_common.Family(cx)
     mod = fam.mod
@@ -169,8 +230,10 @@ def run(cx, rep):
         cb = [a for a in walk(al[isn]) if a["type"] in ("ArrowFunctionExpression", "FunctionExpression")]
         okcb = False
         if cb:
-            objs = [o for o in walk(cb[0]) if o["type"] == "ObjectExpression"]
-            cal = ts_common.local_aliases(cb[0])
+            # the callback may build the object itself or delegate to a private helper: see through it
+            cbnodes = list(tsast.walk_inl(mod, cname, cb[0]))
+            objs = [o for o in cbnodes if o["type"] == "ObjectExpression"]
+            cal = {n["id"]["value"]: n["init"] for n in cbnodes if n["type"] == "VariableDeclarator" and n["id"]["type"] == "Identifier" and n.get("init") is not None}
             for o in objs:
                 kv = {tsast.prop_key(p["key"]): p["value"] for p in o["properties"] if p["type"] == "KeyValueProperty"}
                 if "propertyNames" in kv and "additionalProperties" in kv:
@@ -201,6 +264,9 @@ def run(cx, rep):
                    "%s.schema returns `%s` for a type with an index signature without using the index-signature schemas: the key constraint (propertyNames) is lost, so documents with keys the validator rejects are valid against the schema" % (cname, s(r["argument"])[:80]),
                    mod.loc(r), sample={"class": cname, "return": s(r["argument"])[:80]})
         rep.floor("C02.5", "index-signature returns of %s.schema" % cname, n_ret, 2)
+    # ---------------------------------------------------------------- C02.6
+    rep.rule("C02.6", "a merged object schema requires what every merged member requires")
+    merge_required_rule(mod, rep, "C02.6")
     # ---------------------------------------------------------------- C02.4
     rep.rule("C02.4", "every $ref has an ensured definition")
     n_ref = 0
